@@ -602,10 +602,8 @@ func (f *Func) MustAtInit(n ast.Node, init bool, gen func(Fact) bool, genStmt fu
 		if len(p.Succs) == 2 && len(p.Nodes) > 0 && p.Kind != cfg.KindRangeLoop && p.Succs[0] != p.Succs[1] {
 			if cond, ok := p.Nodes[len(p.Nodes)-1].(ast.Expr); ok {
 				expr := f.caseAsComparison(p, cond)
-				for _, fa := range f.decompose(expr, si == 0, nil, 0) {
-					if gen != nil && gen(fa) {
-						v = true
-					}
+				if gen != nil && f.edgeImplies(expr, si == 0, gen, 0) {
+					v = true
 				}
 			}
 		}
@@ -649,6 +647,32 @@ func (f *Func) MustAtInit(n ast.Node, init bool, gen func(Fact) bool, genStmt fu
 	for _, fa := range f.shortCircuit(top, n, nil) {
 		if gen != nil && gen(fa) {
 			return true
+		}
+	}
+	return false
+}
+
+// edgeImplies: taking the branch on which e has the given truth value establishes a fact
+// accepted by gen. Besides the conjunctive decomposition (A && B true gives A and B), a
+// disjunctive outcome counts when EVERY alternative establishes such a fact: !(A && B)
+// is !A or !B, (A || B) is A or B.
+func (f *Func) edgeImplies(e ast.Expr, truth bool, gen func(Fact) bool, depth int) bool {
+	for _, fa := range f.decompose(e, truth, nil, 0) {
+		if gen(fa) {
+			return true
+		}
+	}
+	if depth > 4 {
+		return false
+	}
+	switch x := ast.Unparen(e).(type) {
+	case *ast.UnaryExpr:
+		if x.Op == token.NOT {
+			return f.edgeImplies(x.X, !truth, gen, depth+1)
+		}
+	case *ast.BinaryExpr:
+		if (x.Op == token.LAND && !truth) || (x.Op == token.LOR && truth) {
+			return f.edgeImplies(x.X, truth, gen, depth+1) && f.edgeImplies(x.Y, truth, gen, depth+1)
 		}
 	}
 	return false
